@@ -186,6 +186,8 @@ def op_api_roundtrip(st, hid_new, hid):
     try:
         if isinstance(obj, pt.Array):
             new = obj.tagged(t).without_tags(t)
+            if len(type(obj).__name__) % 2 and hasattr(obj, "copy"):
+                new = obj.copy()
         elif isinstance(obj, pt.DictOfNamedArrays):
             new = pt.make_dict_of_named_arrays(
                 {k: obj._data[k] for k in reversed(list(obj._data))},
